@@ -290,6 +290,17 @@ func c16IsSynced(r *rand.Rand, emit func([]Ev)) {
 			}
 		}
 	}
+	// every value of the fourth header byte for the PIDs at the edges of the reserved range, with each setting of the
+	// three flag bits in front of the PID (the test is on PID and adaptation_field_control alone)
+	for _, pid := range []int{3, 4, 0xf, 0x10, 0x1003, 0x1004} {
+		for b3 := 0; b3 < 256; b3++ {
+			st := []byte{0x47, byte((b3%8)<<5 | pid>>8), byte(pid), byte(b3), 0x48, 0x48}
+			emit([]Ev{{"op": "issynced", "stream": B(st), "reader": c16Readers[b3%len(c16Readers)]}})
+			if b3%16 == 15 || b3%16 == 0 {
+				emit([]Ev{{"op": "sync", "stream": B(append(append([]byte{0x00, 0x47}, st...), 0x47, 0x01, 0x00, 0x10, 0x48)), "reader": c16Readers[(b3/16)%len(c16Readers)]}})
+			}
+		}
+	}
 	for n := 0; n < 4; n++ {
 		st := append([]byte{0x47, 0x01, 0x00, 0x10}[:n:n], []byte{}...)
 		emit([]Ev{{"op": "issynced", "stream": B(st), "reader": c16Readers[n%len(c16Readers)]}})
